@@ -699,7 +699,12 @@ func runC09React(t *kernel.Tape, opt core.Opts) *core.Outcome {
 }
 
 func init() {
-	core.AltRunners["C09"] = runC09React
+	core.AltRunners["C09"] = func(t *kernel.Tape, opt core.Opts) *core.Outcome {
+		if t.Plan(5) < 2 {
+			return runC09Host(t, opt) // the bundled host multi-agent
+		}
+		return runC09React(t, opt)
+	}
 }
 
 // tagHandler builds a callback handler owned by one caller (owner "" = shared by all): it
